@@ -84,8 +84,12 @@ Print Assumptions C23_redis_scan_order_oracle.
    processing counter -- Get, then the compare-value transaction in a retry
    loop -- are linearizable under every schedule and return after at most three
    own steps each (C23_conc_etcd_add_add_linearizable / _terminates).
-   redis: UpdateWorkload (EXISTS, then MULTI{SET}) is not: a RemoveWorkload in
-   the window is undone (C23_conc_redis_update_window_refuted). ---- *)
+   AddWorkload-with-processing against DeleteProcessing is linearizable under
+   every schedule since the repair 85b2a9b (C23_conc_etcd_add_del_linearizable).
+   redis: every writing method except UpdateWorkload is one MULTI block or one
+   command (C23_conc_redis_atomic_pair); UpdateWorkload (EXISTS, then MULTI{SET})
+   is not linearizable: a RemoveWorkload in the window is undone
+   (C23_conc_redis_update_window_refuted). ---- *)
 Theorem C23_conc_etcd_atomic_pair : atomic_pair_linearizable_stmt.
 Proof. exact atomic_pair_linearizable_holds. Qed.
 Print Assumptions C23_conc_etcd_atomic_pair.
@@ -97,6 +101,14 @@ Print Assumptions C23_conc_etcd_add_add_linearizable.
 Theorem C23_conc_etcd_add_add_terminates : add_add_terminates_stmt.
 Proof. exact add_add_terminates_holds. Qed.
 Print Assumptions C23_conc_etcd_add_add_terminates.
+
+Theorem C23_conc_etcd_add_del_linearizable : add_del_linearizable_stmt.
+Proof. exact add_del_linearizable_holds. Qed.
+Print Assumptions C23_conc_etcd_add_del_linearizable.
+
+Theorem C23_conc_redis_atomic_pair : ratomic_pair_linearizable_stmt.
+Proof. exact ratomic_pair_linearizable_holds. Qed.
+Print Assumptions C23_conc_redis_atomic_pair.
 
 Theorem C23_conc_etcd_decr_delete_window_closed : etcd_decr_delete_window_closed_stmt.
 Proof. exact etcd_decr_delete_window_closed_holds. Qed.
